@@ -26,6 +26,9 @@ def one(e, base):
         for p in glob.glob(os.path.join(d, 'optree', '**', '*.py'), recursive=True):
             out, _ = rename_module(open(p).read(), posonly=bool(e.get('posonly')))
             open(p, 'w').write(out)
+    elif e.get('generator') == 'insert-noops':
+        from insert_noops import main as noops
+        noops(d)
     elif e.get('generator') == 'rename-cxx-locals':
         env = dict(os.environ, OPTREE_VERIF_CACHE=os.path.join(base, 'cache'), OPTREE_VERIF_CACHE_KEEP='500')
         r = subprocess.run([sys.executable, os.path.join(HERE, 'rename_cxx_locals.py')] +
